@@ -1,34 +1,35 @@
 #!/bin/bash
 # Like run_seeded.sh, but never touches /repo: the change is applied to a scratch
-# worktree of /repo HEAD (/tmp/scr-repo) and the current /verif/sim sources are built
-# against it in /tmp/scr-sim. Safe to use while background runs or vp check use /repo.
+# worktree of /repo HEAD ($SCR-repo) and the current /verif/sim sources are built
+# against it in $SCR-sim. Safe to use while background runs or vp check use /repo.
 #
 #   tools/run_seeded_scratch.sh <seeded-dir> <tier> <id> [<id>...]
 set -u
 dir=$(realpath "$1"); tier=$2; shift 2
-exec 9>/tmp/scr.lock; flock 9
-[ -d /tmp/scr-repo ] || git -C /repo worktree add -q --detach /tmp/scr-repo HEAD
-git -C /tmp/scr-repo checkout -q --detach $(git -C /repo rev-parse HEAD) 2>/dev/null
-git -C /tmp/scr-repo checkout -q -- .
-git -C /tmp/scr-repo apply "$dir/patch.diff" || { echo "patch does not apply"; exit 2; }
-mkdir -p /tmp/scr-sim/.cargo /tmp/scr-verif
-rsync -a --delete /verif/sim/src/ /tmp/scr-sim/src/
-cp /verif/sim/Cargo.lock /tmp/scr-sim/Cargo.lock
-sed 's#path = "/repo"#path = "/tmp/scr-repo"#' /verif/sim/Cargo.toml > /tmp/scr-sim/Cargo.toml
-printf '[net]\noffline = true\n[build]\ntarget-dir = "target"\n' > /tmp/scr-sim/.cargo/config.toml
-cp /verif/known_findings.txt /tmp/scr-verif/
-(cd /tmp/scr-sim && cargo build --release --offline > /tmp/scr-build.log 2>&1) || { grep -E "^error" -A 8 /tmp/scr-build.log | head -40; echo "BUILD FAILED"; git -C /tmp/scr-repo checkout -q -- .; exit 2; }
+SCR=${SCR:-/tmp/scr}
+exec 9>$SCR.lock; flock 9
+[ -d $SCR-repo ] || git -C /repo worktree add -q --detach $SCR-repo HEAD
+git -C $SCR-repo checkout -q --detach $(git -C /repo rev-parse HEAD) 2>/dev/null
+git -C $SCR-repo checkout -q -- .
+git -C $SCR-repo apply "$dir/patch.diff" || { echo "patch does not apply"; exit 2; }
+mkdir -p $SCR-sim/.cargo $SCR-verif
+[ -n "${SCR_NOSYNC:-}" ] || rsync -a --delete /verif/sim/src/ $SCR-sim/src/
+cp /verif/sim/Cargo.lock $SCR-sim/Cargo.lock
+sed "s#path = \"/repo\"#path = \"$SCR-repo\"#" /verif/sim/Cargo.toml > $SCR-sim/Cargo.toml
+printf '[net]\noffline = true\n[build]\ntarget-dir = "target"\n' > $SCR-sim/.cargo/config.toml
+cp /verif/known_findings.txt $SCR-verif/
+(cd $SCR-sim && cargo build --release --offline > $SCR-build.log 2>&1) || { grep -E "^error" -A 8 $SCR-build.log | head -40; echo "BUILD FAILED"; git -C $SCR-repo checkout -q -- .; exit 2; }
 out="$dir/check-output.txt"; : > "$out"; caught=""
 for id in "$@"; do
-  (cd /tmp/scr-sim && VERIF_DIR=/tmp/scr-verif ./target/release/rpki-sim check "$id" --tier "$tier" --no-evidence) > /tmp/scr-run.$$ 2>&1
+  (cd $SCR-sim && VERIF_DIR=$SCR-verif ./target/release/rpki-sim check "$id" --tier "$tier" --no-evidence) > $SCR-run.$$ 2>&1
   code=$?
-  grep -E "^(violation in run|  =>|VIOLATION|KNOWN|C0|HARNESS)" /tmp/scr-run.$$ | tee -a "$out"
+  grep -E "^(violation in run|  =>|VIOLATION|KNOWN|C0|HARNESS)" $SCR-run.$$ | tee -a "$out"
   echo "check $id exit=$code" | tee -a "$out"
   [ $code -eq 1 ] && caught="$caught $id"
   mkdir -p "$dir/replays"
-  for f in /tmp/scr-verif/replays/${id}-*.json; do [ -e "$f" ] && mv "$f" "$dir/replays/"; done
+  for f in $SCR-verif/replays/${id}-*.json; do [ -e "$f" ] && mv "$f" "$dir/replays/"; done
 done
 rmdir "$dir/replays" 2>/dev/null
-rm -f /tmp/scr-run.$$
-git -C /tmp/scr-repo checkout -q -- .
+rm -f $SCR-run.$$
+git -C $SCR-repo checkout -q -- .
 echo "CAUGHT-BY:${caught:- none}" | tee -a "$out"
